@@ -41,15 +41,21 @@ def run_case(case):
     driver = case.get("driver", "data_frame")
     cf = case.get("cf", True) and driver != "recv"
     fire = bool(case.get("fire")) and driver != "recv"
-    events, ws, fs, frames, ends, wire = rx.run_stream(specs, case.get("cuts", []), driver, cf, fire)
-    want, wwr = rx.expected_events(frames, ends, len(wire), driver, cf, fire)
+    skip = bool(case.get("skip")) and driver != "recv"
+    resume = bool(case.get("resume"))
+    events, ws, fs, frames, ends, wire = rx.run_stream(specs, case.get("cuts", []), driver, cf, fire, skip, resume=resume)
+    want, wwr = rx.expected_events(frames, ends, len(wire), driver, cf, fire, skip, resume=resume)
     rejected = any(w[0] == "raise" and w[1] != "WebSocketConnectionClosedException" for w in want)
     clause = "accept"
     if rejected:
-        ev, _ = rm.StreamModel(control_frame=cf, fire_cont_frame=fire).run(frames)
+        ev, _ = rm.StreamModel(control_frame=cf, fire_cont_frame=fire, skip_utf8=skip).run(frames)
         clause = ev[-1][2]
     if fire:
         driver = driver + "+per-fragment"
+    if skip:
+        driver = driver + "+novalidate"
+    if resume:
+        driver = driver + "+resume"
     ok = rx.compare(obs, events, want, f"{'reject:' + clause if rejected else 'accept'}|{driver}")
     if ok:
         rx.compare_writes(obs, fs, wwr, f"{'reject:' + clause if rejected else 'accept'}|{driver}")
@@ -58,7 +64,7 @@ def run_case(case):
     interesting = rejected or case.get("boundary") or any(
         f.opcode in rm.CONTROL_OPS or not f.fin or f.opcode == rm.CONT for f in frames
     )
-    obs.nt = (sub, fire, case.get("k") or (rx.shape(frames), clause)) if interesting else None
+    obs.nt = (sub, fire, skip, resume, case.get("k") or (rx.shape(frames), clause)) if interesting else None
     return obs
 
 
@@ -93,7 +99,7 @@ def sub_a():
                         specs.append({"fin": 1, "op": rm.CONT, "p": b"z"})
                     yield {"sub": "A", "frames": specs, "k": (b0, masked, n, inside), "boundary": n in (125, 126),
                            "driver": "data_frame" if (b0 + n) % 3 else "recv" if op != rm.CONT or inside else "data_frame", "cf": True,
-                           "fire": (b0 + masked + n + inside) % 4 == 0}
+                           "fire": (b0 + masked + n + inside) % 4 == 0, "resume": (b0 + n) % 4 == 1, "skip": (b0 + inside + n) % 8 == 3}
 
 
 def sub_b(codes):
@@ -101,6 +107,9 @@ def sub_b(codes):
         for reason in (b"", b"bye \xe2\x82\xac"):
             yield {"sub": "B", "frames": [{"fin": 1, "op": rm.CLOSE, "p": struct.pack(">H", code) + reason, "key": None}],
                    "k": (code, len(reason)), "boundary": True, "driver": "data_frame", "cf": bool(code & 1)}
+        # the status code is policed with UTF-8 validation switched off as well
+        yield {"sub": "B", "frames": [{"fin": 1, "op": rm.CLOSE, "p": struct.pack(">H", code) + (b"r\xff" if code & 1 else b"ok"), "key": None}],
+               "k": (code, "skip"), "boundary": True, "driver": "data_frame", "cf": False, "skip": True}
 
 
 UTF8_CLASSES = {
@@ -142,6 +151,8 @@ def sub_d(length, first_syms):
             yield {"sub": f"D{length}", "frames": specs, "k": hist, "driver": ("data_frame", "data", "recv")[h % 3] , "cf": bool(h & 1)}
             # same history with per-fragment delivery (fire_cont_frame=True): sequencing must be policed there as well
             yield {"sub": f"D{length}", "frames": specs, "k": hist, "driver": ("data_frame", "data")[h % 2], "cf": bool(h & 2), "fire": True}
+            # the application catches a rejection and keeps receiving: later frames are still judged correctly
+            yield {"sub": f"D{length}", "frames": specs, "k": hist, "driver": ("data_frame", "recv", "data")[h % 3], "cf": bool(h & 1), "resume": True, "fire": h % 5 == 0}
 
 
 @st.composite
@@ -179,7 +190,7 @@ def mixes(draw):
         specs = specs[: cut + 1]
     driver = draw(st.sampled_from(["data_frame", "data", "recv"]))
     return {"sub": "mix:" + kind, "frames": specs, "driver": driver, "cf": draw(st.booleans()) if driver != "recv" else False,
-            "fire": draw(st.integers(0, 2)) == 0}
+            "fire": draw(st.integers(0, 2)) == 0, "skip": draw(st.integers(0, 3)) == 0, "resume": draw(st.integers(0, 2)) == 0}
 
 
 def jobs(tier, seed):
